@@ -144,6 +144,16 @@ Fixpoint dedup_c (l : list cfg) : list cfg :=
 Definition gram := (list string * list (string * list string))%type.
 Definition grammar (it : string) : gram :=
   match assoc it (t_grammar T) with Some g => g | None => ([], []) end.
+(* the grammar under a dictionary strategy: mappings are FixedKeyDictNode with `none`, DictNode otherwise *)
+Definition drop_class (x : string) (g : gram) : gram :=
+  (filter (fun c => negb (String.eqb c x)) (fst g),
+   map (fun pk : string * list string => (fst pk, filter (fun c => negb (String.eqb c x)) (snd pk)))
+       (filter (fun pk : string * list string => negb (String.eqb (fst pk) x)) (snd g))).
+Definition grammar_o (it : string) (ds : dstrategy) : gram :=
+  match ds with
+  | DSNone => drop_class "DictNode" (grammar it)
+  | _ => drop_class "FixedKeyDictNode" (grammar it)
+  end.
 Definition roots (g : gram) : list string := fst g.
 Definition kids (g : gram) (ko : string) : list string :=
   match assoc ko (snd g) with Some l => l | None => [] end.
@@ -250,6 +260,47 @@ Definition step (c : cfg) : list succ :=
   | RFuel => [SBad]
   end.
 
+(* ---- re-dispatch of the SAME item: self.parent.print of the same node and the like. A cycle of such calls never descends
+   into the tree: unbounded recursion (RecursionError) ---- *)
+Fixpoint same_method (fuel : nat) (f : finst) (owner name cls ko : string) : list cfg :=
+  match fuel with
+  | O => []
+  | S k =>
+      match assoc2 (owner, name) (t_methods T) with
+      | None => []
+      | Some s =>
+          flat_map (fun a =>
+            match a with
+            | ACall t WSame => match apply_target f t with Some f' => [(f', cls, ko, true)] | None => [] end
+            | ARun o n WSame =>
+                match (match o with Some x => Some x | None => has_print (fcls f) n end) with
+                | Some ow => same_method k f ow n cls ko
+                | None => []
+                end
+            | _ => []
+            end) (m_actions s)
+      end
+  end.
+Definition same_next (c : cfg) : list cfg :=
+  match resolve (mro_of (c_cls c)) (Some (c_f c)) with
+  | RFound f m => match has_print (fcls f) m with
+                  | Some ow => same_method MFUEL f ow m (c_cls c) (c_ko c)
+                  | None => []
+                  end
+  | _ => []
+  end.
+Fixpoint same_closure (fuel : nat) (todo seen : list cfg) : list cfg :=
+  match fuel with
+  | O => seen
+  | S k => match todo with
+           | [] => seen
+           | x :: r => if memcfg x seen then same_closure k r seen
+                       else same_closure k (same_next x ++ r) (x :: seen)
+           end
+  end.
+(* the configuration hands its item back to itself through same-item calls only *)
+Definition sloop (c : cfg) : bool := memcfg c (same_closure 40 (same_next c) []).
+
 Definition cfgs_of (l : list succ) : list cfg :=
   flat_map (fun s => match s with SCfg c => [c] | _ => [] end) l.
 
@@ -301,7 +352,7 @@ Definition kf_reparent_cfg (of : string) (m : omode) : bool := existsb (cfg_has 
 Definition kf_emit_cfg (of : string) (m : omode) : bool := existsb (cfg_has SEmit) (reach of m).
 (* neither: dispatch is not total, or the model is stuck *)
 Definition other_err_cfg (of : string) (m : omode) : bool :=
-  existsb (fun c => cfg_has SNoPrinter c || cfg_has SBad c || cfg_has SEmitOther c) (reach of m).
+  existsb (fun c => cfg_has SNoPrinter c || cfg_has SBad c || cfg_has SEmitOther c || sloop c) (reach of m).
 
 Definition render_ok (of : string) (m : omode) : bool := forallb cfg_clean (reach of m).
 
@@ -412,7 +463,7 @@ Definition event_resolves (e : event) : bool :=
   slist_eqb (mro_of (e_cls e)) (e_mro e) &&
   ores_eqb (resolve (e_mro e) (match e_base e with [] => None | b => Some b end)) (e_res e).
 
-Inductive efail := FNone | FReparent | FEmit | FEmitOther | FNoPrinter | FBad.
+Inductive efail := FNone | FReparent | FEmit | FEmitOther | FLoop | FNoPrinter | FBad.
 (* does the model predict that this dispatch ends in an exception? *)
 Definition event_fail (it : gram) (e : event) : efail :=
   if e_is_edit e then FNone else
@@ -422,6 +473,7 @@ Definition event_fail (it : gram) (e : event) : efail :=
       let cls := unedited (e_mro e) in
       let calls := run_method it MFUEL f ow m cls cls in
       let ks := emit_all ow m cls in
+      if sloop (e_base e, cls, cls, true) then FLoop else
       match ks, assoc (e_kind e) ks with
       | _, Some false => if kf_kind (e_kind e) then FEmit else FEmitOther
       | _ :: _, None => FBad      (* a scalar class the generator did not probe *)
@@ -433,7 +485,8 @@ Definition event_fail (it : gram) (e : event) : efail :=
   end.
 Definition efail_none (f : efail) : bool := match f with FNone => true | _ => false end.
 
-Definition mode_reach (c : c13_case) : list cfg := reach (grammar (c_it c)) (root_class (c_of c)) (c_mode c).
+Definition case_gram (c : c13_case) : gram := grammar_o (c_it c) (c_ds c).
+Definition mode_reach (c : c13_case) : list cfg := reach (case_gram c) (root_class (c_of c)) (c_mode c).
 
 (* every observed node dispatch lies inside the reachable set computed from the tables *)
 Definition event_in_reach (c : c13_case) (S : list cfg) (e : event) : bool :=
@@ -443,9 +496,9 @@ Definition event_in_reach (c : c13_case) (S : list cfg) (e : event) : bool :=
 Definition completed (c : c13_case) : bool := match c_out c with Completed _ => true | Raised _ _ _ => false end.
 
 Definition grammar_ok (c : c13_case) : bool :=
-  forallb (fun r => mem r (roots (grammar (c_it c)))) (c_roots c) &&
-  forallb (fun pk : string * string => mem (snd pk) (kids (grammar (c_it c)) (fst pk))) (c_pairs c) &&
-  forallb (fun k => mem k (gkinds (grammar (c_it c)))) (c_kinds c).
+  forallb (fun r => mem r (roots (case_gram c))) (c_roots c) &&
+  forallb (fun pk : string * string => mem (snd pk) (kids (case_gram c) (fst pk))) (c_pairs c) &&
+  forallb (fun k => mem k (gkinds (case_gram c))) (c_kinds c).
 
 (* S : the reachable set of the case's configuration (reach of its grammar, root formatter and mode) *)
 Definition corr_C13 (S : list cfg) (c : c13_case) : bool :=
@@ -454,7 +507,7 @@ Definition corr_C13 (S : list cfg) (c : c13_case) : bool :=
   forallb (event_in_reach c S) (c_events c) &&
   (* rendering completes iff no dispatch is predicted to fail; an exception raised outside rendering (loader, diff
      engine) is outside this model: nothing printed so far may have been predicted to fail *)
-  (let all_ok := forallb (fun e => efail_none (event_fail (grammar (c_it c)) e)) (c_events c) in
+  (let all_ok := forallb (fun e => efail_none (event_fail (case_gram c) e)) (c_events c) in
    match c_out c with
    | Completed _ => all_ok
    | Raised _ _ true => negb all_ok
@@ -468,9 +521,9 @@ Definition raised_with (c : c13_case) (cls sub : string) : bool :=
   match c_out c with Raised k msg _ => String.eqb k cls && contains sub msg | _ => false end.
 Definition kf_reparent (c : c13_case) : bool :=
   raised_with c "ValueError" "Parent is already assigned" &&
-  existsb (fun e => match event_fail (grammar (c_it c)) e with FReparent => true | _ => false end) (c_events c).
+  existsb (fun e => match event_fail (case_gram c) e with FReparent => true | _ => false end) (c_events c).
 Definition emit_fails_on (c : c13_case) (kind : string) : bool :=
-  existsb (fun e => match event_fail (grammar (c_it c)) e with FEmit => String.eqb (e_kind e) kind | _ => false end)
+  existsb (fun e => match event_fail (case_gram c) e with FEmit => String.eqb (e_kind e) kind | _ => false end)
           (c_events c).
 Definition kf_plist_null (c : c13_case) : bool :=
   raised_with c "TypeError" "unsupported type" && emit_fails_on c "null".
